@@ -230,6 +230,9 @@ form('proto-apply-empty', { ops: ['trim'] }, F => `String.prototype.trim.apply($
 form('proto-apply-variable-args', { ops: ['concat'], kf: 'D19' }, F => `String.prototype.concat.apply(${F.loc()}, w.arr${F.id()})`)
 form('proto-apply-hole', { ops: ['concat'] }, F => `String.prototype.concat.apply(${F.loc()}, [${F.f()}, , ${F.lit()}])`)
 form('proto-call-spread-this', { ops: ['concat'], nodemand: true }, F => `String.prototype.concat.call(...w.it${F.id()})`)
+// a prototype call that is NOT instrumented (literal this, literal arguments) inside a file that IS printed (the `+` around it is instrumented)
+form('proto-call-lit-this-left-alone-in-printed-file', { ops: ['trim', '+'] }, F => `String.prototype.trim.call(' t${F.id()} ') + ${F.s()}`)
+form('proto-apply-lit-this-litargs-left-alone-in-printed-file', { ops: ['concat', '+'] }, F => `${F.f()} + String.prototype.concat.apply('a${F.id()}', ['b', 1, null])`)
 form('proto-call-lit-this-litargs', { ops: ['concat'], instr: false }, F => `String.prototype.concat.call('⟦L${F.id()}⟧', 'x')`)
 form('proto-call-lit-this-args', { ops: ['concat'], nodemand: true }, F => `String.prototype.concat.call('⟦L${F.id()}⟧', ${F.loc()})`)
 // m.call / m.apply reached through something that is not a static `X.prototype.m` path (the rewriter instruments these too)
